@@ -285,9 +285,15 @@ def intended(kind, payload, kw):
     return v
 
 
+KW = {'': {}, 'ra': {'ra': True}, 'rad': {'radians': True},
+      # the flags spelled out as False: the same call as without them
+      'rad0': {'radians': False}, 'ra0': {'ra': False}, 'both0': {'radians': False, 'ra': False}}
+OFF = ('rad0', 'ra0', 'both0')
+
+
 def build(kind, payload, kw, via):
     Angle = A()
-    kwargs = {'ra': True} if kw == 'ra' else {'radians': True} if kw == 'rad' else {}
+    kwargs = dict(KW[kw])
     if kind == 'none':
         args = ()
     elif kind == 'num':
@@ -335,9 +341,11 @@ def run_ctor(ctx, spec):
         if via == 'new':
             if kw == 'rad':
                 ctx.case('angle_new_kw', [True, False, tag, pl], out, q=None, klass='S/' + klass)
+            elif kw in OFF:
+                ctx.case('angle_new_kw', [False, False, tag, pl], out, q=None, klass='S/' + klass)
             else:
                 ctx.case('angle_new', [kw == 'ra', tag, pl], out, q=qrule, klass='S/' + klass)
-        elif via in ('set', 'set_ra') and kw != 'rad':
+        elif via in ('set', 'set_ra') and kw != 'rad' and kw not in OFF:
             ctx.case('angle_set', [[77.25, 1e-10], kw == 'ra' or via == 'set_ra', tag, pl], out, q=qrule, klass='S/' + klass)
         elif via == 'set_radians':
             ctx.case('set_radians', [[77.25, 1e-10], payload], out, q=None, klass='S/' + klass)
@@ -369,7 +377,7 @@ def run_forms(ctx, spec):
     """tuple = list = separate arguments (= set after construction), bit for bit"""
     _, payload, kw = spec
     Angle = A()
-    kwargs = {'ra': True} if kw == 'ra' else {'radians': True} if kw == 'rad' else {}
+    kwargs = dict(KW[kw])
     vals = {}
     lst = list(payload)
     for name, th in (('args', lambda: Angle(*payload, **kwargs)), ('tuple', lambda: Angle(tuple(payload), **kwargs)),
@@ -652,6 +660,11 @@ def fixed_specs():
             s.append(['ctor', 'seq_t', [x], '', via])
             s.append(['ctor', 'seq_l', [x], '', via])
         s.append(['ctor', 'num', x, 'rad', 'new'])
+        for off in OFF:
+            s.append(['ctor', 'num', x, off, 'new'])
+            s.append(['ctor', 'seq_l', [x], off, 'new'])
+            s.append(['ctor', 'seq_t', [x], off, 'new'])
+            s.append(['ctor', 'seq_l', [x], off, 'set'])
         s.append(['ctor', 'seq_l', [x], 'rad', 'new'])
         s.append(['ctor', 'seq_t', [x], 'rad', 'new'])
         s.append(['ctor', 'num', x, 'rad', 'set_radians'])
@@ -765,7 +778,7 @@ def gen_specs(ctx, count):
             p = gen_pieces(rng)
             k = rng.random()
             if k < 0.45:
-                yield ['ctor', rng.choice(['args', 'seq_t', 'seq_l']), p, rng.choice(['', '', '', 'rad']), rng.choice(['new', 'new', 'set'])]
+                yield ['ctor', rng.choice(['args', 'seq_t', 'seq_l']), p, rng.choice(['', '', '', 'rad', 'rad0', 'ra0', 'both0']), rng.choice(['new', 'new', 'set'])]
             elif k < 0.6:
                 if rng.random() < 0.5:
                     p = [rng.choice([rng.randint(0, 23), rng.uniform(0, 23), 23, 24]), rng.choice([rng.randint(0, 59), rng.uniform(0, 59), 59, 60]),
